@@ -125,10 +125,17 @@ Definition elements_rebuilt (t : string) : bool :=
   contains "elem:copyslice" t || contains "elem:make" t || contains "elem:call:" t ||
   contains "elem:local:score" t || contains "method:add(call:copySolutionPlanUnit)" t.
 
+(* data copied from the original must come from the SAME field of the original
+   (copyslice:<field>, clone:<field>, elem:copyslice:<field> as the translator records them) *)
+Definition source_ok (f t : string) : bool :=
+  (if prefix_of "copyslice:" t then String.eqb t ("copyslice:" ++ f) || prefix_of ("copyslice:" ++ f ++ "+") t else true) &&
+  (if prefix_of "clone:" t then String.eqb t ("clone:" ++ f) || prefix_of ("clone:" ++ f ++ "+") t else true) &&
+  (if contains "elem:copyslice:" t then contains ("elem:copyslice:" ++ f) t else true).
+
 Definition row_ok (row : string * string * string) : bool :=
   let '(f, c, t) := row in
   if negb (mutable_class c) then true
-  else fresh_treatment t &&
+  else fresh_treatment t && source_ok f t &&
        (if String.eqb c "map" then elements_rebuilt t else true).
 
 Definition copy_violations (table : list (string * string * string)) : list string :=
